@@ -48,7 +48,7 @@ Leave the worktree with the patch APPLIED (uncommitted) when you finish.
 
 Practical notes for this sealed sandbox (no network at all):
   - cargo must run offline: prefix commands with `CARGO_NET_OFFLINE=true` and pass `--offline`. Use `RUSTUP_TOOLCHAIN=stable-x86_64-unknown-linux-gnu` for the repository's own crates.
-  - Build output is big and the disk is limited: use ONE target dir, {wt}/target (the default), and do not create further copies of the repository. If you create scratch cargo projects,
+  - Build output is big and the disk is limited: ALWAYS `export CARGO_PROFILE_DEV_DEBUG=0 CARGO_PROFILE_TEST_DEBUG=0` before any cargo command (no debug info), and use ONE target dir, {wt}/target (the default), and do not create further copies of the repository. If you create scratch cargo projects,
     put them under {wt}/SEED/demo and point CARGO_TARGET_DIR at {wt}/target-demo; use path dependencies on the crates in {wt} and copy {wt}/Cargo.lock (runtime crates) or
     {tc}/e2e_workspace.Cargo.lock (applications depending on `pavex` with features = ["server"]) next to your Cargo.toml, since nothing can be fetched or re-resolved.
   - Running the real compiler end to end (`pavexc generate`) IS possible offline:
@@ -58,6 +58,7 @@ Practical notes for this sealed sandbox (no network at all):
         and an (initially almost empty) SDK crate that is a member of the workspace; then
         `pavexc generate -b bp.ron -o sdk --docs-toolchain nightly --diagnostics diag.dot` (first run ~70 s: it documents the app and its dependencies; later runs 2-3 s). Use a private HOME (e.g. HOME={wt}/SEED/home, keeping CARGO_HOME=$HOME_REAL/.cargo and RUSTUP_HOME=$HOME_REAL/.rustup pointing at /root/.cargo and /root/.rustup) so the doc cache (~/.pavex) is yours alone,
       * `cargo check -p <sdk> --offline` then tells whether the generated crate compiles; a generated server can be started on 127.0.0.1:0 from a small binary for run-time properties.
-      * {tc}/example/ holds a complete minimal working example of such a workspace with a run.sh.
+      * {tc}/example/ holds a complete minimal working example of such a workspace with a run.sh (copy it to {wt}/SEED/demo and adapt it).
+  - Other sub-agents are working at the same time on other properties in other worktrees: the machine is shared (16 cores), builds may be slower than quoted. Never kill processes you did not start.
   - Do not spend more than about 60-75 minutes. If an idea does not pan out, pick another. When done, reply with a short summary: the mechanism, what is needed to manifest it, and the exact commands that show fail-with / pass-without.
 """)
